@@ -174,4 +174,48 @@ def xrecJson (x : XRec) : Json :=
 /-- the exported text: one line per record, written with the writer machine -/
 def exportText (s : PState) : Str := s.out.flatMap (fun x => writeText (xrecJson x) ++ ['\n'])
 
+/-! ## diagnostics for the coverage note (not used in theorems): which arm of the model functions an op takes -/
+
+def kindTag : Kind → String
+  | .unset => "unset" | .scalar => "scalar" | .array => "array" | .dict => "dict" | .closed => "closed"
+
+/-- arm of `step` taken by `op` in state `s` -/
+def stepArm (s : WState) (op : Op) : String :=
+  let opn := match op with
+    | .key _ => "key" | .elem => "elem"
+    | .scalar t => if isNonFinite t then "scalar-nonfinite" else "scalar"
+    | .string _ => "string" | .close => "close"
+  match s.stack with
+  | [] => opn ++ "/empty-stack"
+  | nd :: _ => opn ++ "/" ++ kindTag nd.kind ++ (if nd.n = 0 then "/first" else "/later")
+
+def runArms (s : WState) : List Op → List String
+  | [] => []
+  | op :: ops => stepArm s op :: runArms (step s op) ops
+
+/-- arm of `escChar` -/
+def escArm (c : Char) : String :=
+  if c = '"' then "quote" else if c = '\\' then "backslash" else if c = '\n' then "lf" else if c = '\r' then "cr"
+  else if c = '\t' then "tab" else if c.toNat < 32 then "u00XX" else "plain"
+
+/-- arm of `addEntry` (and of `addRange` when an entry is pushed) -/
+def addEntryArm (s : PState) (k : LKind) (e : Entry) : String :=
+  let reg := match s.brl.getLast? with
+    | some b => if b.link = k && b.end_ = (s.ents k).length then "range-extended" else "range-new(exports-pending)"
+    | none => "range-first"
+  match (s.ents k).getLast? with
+  | none => "first-entry/" ++ reg
+  | some last =>
+    if !isLastReg s k then "not-last-registered:push/" ++ reg else
+    match k with
+    | .copy => if last.1.extendableBy e.1 && last.2.extendableBy e.2 then "copy:extend-in-place" else "copy:push/" ++ reg
+    | _ =>
+      if last.1 = e.1 && last.2.extendableBy e.2 then "m2m:extend-dst"
+      else if last.2 = e.2 && last.1.extendableBy e.1 then "m2m:extend-src" else "m2m:push/" ++ reg
+
+def xrunArms (s : PState) : List XOp → List String
+  | [] => []
+  | .add k e :: ops => addEntryArm s k e :: xrunArms (xstep s (.add k e)) ops
+  | .finish :: ops => (if s.iExp < s.brl.length then "finish:exports" else "finish:nothing-left") :: xrunArms (xstep s .finish) ops
+
 end MpVerif.C20
